@@ -1571,7 +1571,8 @@ func runStyledown(c *mon.Case) {
 // Spec returns the C33 check.
 func Spec() *mon.Spec {
 	return &mon.Spec{
-		ID: "C33", Level: "exploration",
+		ID:            "C33",
+		SpinViolation: true, Level: "exploration",
 		Rule: "phase ops: a case runs 150 random operations (ui.T, Concat, Text.Concat/RConcat, Segment.Concat/RConcat, Partition, SplitByRune, TrimWcwidth, StyleText/StyleSegment/ApplyStyling with atomic, joint, parsed and nil stylings, Clone, TextBuilder, TextFromSegment, CountRune/CountLines) over a pool of normal-form texts of 0..8 segments drawn from 2..6 styles (so equal neighbouring styles arise constantly), with wide, zero-width, control and invalid bytes and newlines; every returned Text is checked for the documented normal form and compared byte-by-byte (content and style) with the harness's expansion model; inputs must stay unmodified; normal-form results are fed back as inputs. phase construct: MarkText/MarkLines, StyleRegions and ParseSGREscapedText/VTString against the same model. phase styledown: Render(Derender(t, defs)) must be deeply equal to t for generated style definitions (0..5 characters, overriding builtins, multi-styling lines) and texts using only expressible styles. Non-trivial = ops case that ends with >= 3 multi-segment texts in its pool; construct/styledown case whose text has >= 2 segments.",
 		Assumptions: []string{
 			"Partition is called with non-decreasing indices; for indices beyond the length only normal form and the concatenation law are demanded",
